@@ -115,7 +115,7 @@ impl FSpec {
     pub fn op_lax(&self, l: &u64, st: &[u32], tt: &[u32]) -> PLax<u32, u64> {
         let kind = if self.op == 5 { (*l % 5) as u8 } else { self.op };
         if kind == 3 || ((kind == 0 || kind == 4) && *l % 2 == 1) {
-            return explode(&self.op(l, st, tt));
+            return explode_shuffled(&self.op(l, st, tt));
         }
         if kind != 1 {
             return self.op(l, st, tt).to_lax();
